@@ -17,7 +17,7 @@ def one(d):
         det = {}
         for p in PROPS:
             r = subprocess.run(['/venv/bin/python', '-B', '-m', 'sa.cli', p, '--repo', tmp, '--no-evidence'],
-                               cwd='/verif', capture_output=True, text=True)
+                               cwd=os.environ.get('SA_ROOT', '/verif'), capture_output=True, text=True)
             if r.returncode != 0:
                 lines = [l.strip().replace(tmp + '/', '') for l in r.stdout.splitlines()
                          if l.strip().startswith(('rule', 'ANALYSIS'))]
